@@ -7,6 +7,7 @@ import GqlProofs.ExecErr
 import GqlProofs.ExecRoot
 import GqlProofs.ExecLog
 import GqlProofs.ExecState
+import GqlProofs.ExecWorlds
 /-! # C04 — Responses are well-formed for schema and query whatever resolvers return
 
 Property theorems only. The theorems are about `GqlModel.Exec.execute` (the execution algorithm as this library
@@ -265,6 +266,110 @@ theorem sibling_unaffected_by_failures (c : Ctx) (fuel : Nat) (dfr : Bool) (rt :
     ∃ v, (k, v) ∈ fs ∧ ∀ st0, (execField c fuel dfr rt src (path ++ [.key k]) fd nodes st0).1 = .ok v :=
   execGroups_field_values c fuel dfr rt src path groups acc st fs st' h k nodes node fd hm hnode hfd
 
+/-! ### two worlds
+
+Full statement wanted (C04, "no failure in one field alters the value of a sibling outside the nulled subtree", two-world
+form): for worlds `w₁ w₂` with `AgreeExcept w₁ w₂ id₀ f₀` whose resolver `(id₀, f₀)` is invoked (in `w₁`) only at response
+position `p`, the two responses agree at every position that is neither a prefix nor an extension of the nearest
+nullable ancestor `a` of `p` (`∃ a <+: p, EqOutside a data₁ data₂ ∧ (a = p ∨ data₁ or data₂ holds null at a)`).
+Proved below: the transfer theorem (a call that never invokes the differing resolver is unchanged), the statement at
+ONE selection set (any depth), and its response-level instance for top-level keys. Missing for the full form: the paired
+induction that threads the statement along the path from the root to `p` (the group leading to `p` is the only one that
+may differ at each level; where it is nulled in one world, `a` is that level). -/
+
+/-- A call of any of the four functions that (in the first world) never invokes the differing resolver returns the same
+result and leaves the same state in the second world. -/
+theorem untouched_call_same_in_both_worlds (c : Ctx) (w2 : World) (id0 : Nat) (f0 : String)
+    (ha : AgreeExcept c.world w2 id0 f0) (fuel : Nat) :
+    (∀ dfr rt src path groups acc st r st', execGroups c fuel dfr rt src path groups acc st = (r, st') →
+      (∀ e, e ∈ st'.log → ¬ Touches id0 f0 e) →
+      execGroups (c.withWorld w2) fuel dfr rt src path groups acc st = (r, st')) ∧
+    (∀ dfr rt src p fd nodes st r st', execField c fuel dfr rt src p fd nodes st = (r, st') →
+      (∀ e, e ∈ st'.log → ¬ Touches id0 f0 e) →
+      execField (c.withWorld w2) fuel dfr rt src p fd nodes st = (r, st')) ∧
+    (∀ dfr t rt fname nodes p v st r st', complete c fuel dfr t rt fname nodes p v st = (r, st') →
+      (∀ e, e ∈ st'.log → ¬ Touches id0 f0 e) →
+      complete (c.withWorld w2) fuel dfr t rt fname nodes p v st = (r, st')) :=
+  ⟨(wP ha fuel).groups, (wP ha fuel).field, (wP ha fuel).complete⟩
+
+/-- Two-world sibling independence at one selection set (any depth): if it yields an object in both worlds, then under
+every response key whose field's own execution in the first world never invokes the differing resolver, both objects
+hold the same value. -/
+theorem sibling_unaffected_two_worlds_local (c : Ctx) (w2 : World) (id0 : Nat) (f0 : String)
+    (ha : AgreeExcept c.world w2 id0 f0) (fuel : Nat) (dfr : Bool) (rt : String) (src : GoVal)
+    (path : Path) (groups : Groups) (st1 st2 st1' st2' : St) (fs1 fs2 : List (String × JVal))
+    (hn : groups.keys.Nodup)
+    (h1 : execGroups c fuel dfr rt src path groups [] st1 = (.ok fs1, st1'))
+    (h2 : execGroups (c.withWorld w2) fuel dfr rt src path groups [] st2 = (.ok fs2, st2'))
+    (k : String) (nodes : List FieldNode) (node : FieldNode) (fd : FieldDefS)
+    (hm : (k, nodes) ∈ groups) (hnode : nodes.head? = some node) (hfd : fieldDef? c.schema rt node.name = some fd)
+    (hnt : ∀ e, e ∈ (execField c fuel dfr rt src (path ++ [.key k]) fd nodes St.empty).2.log → ¬ Touches id0 f0 e) :
+    ∀ v, (k, v) ∈ fs1 ↔ (k, v) ∈ fs2 :=
+  execGroups_two_worlds ha fuel dfr rt src path groups st1 st2 st1' st2' fs1 fs2 hn h1 h2 k nodes node fd hm hnode hfd hnt
+
+/-- Response level (partial form of the two-world statement, top-level keys): two worlds that agree except on the
+outcome of ONE resolver `(object id₀, field f₀)`, which the first execution invokes only at response position `p`; if
+both responses have data, they hold the same value under every top-level response key that does not lead to `p`. -/
+theorem sibling_unaffected_two_worlds_partial (s : Schema) (doc : Document) (opName : String) (inputs : Vars)
+    (w1 w2 : World) (id0 : Nat) (f0 : String) (ha : AgreeExcept w1 w2 id0 f0) (fuel : Nat)
+    (d1 d2 : List (String × JVal)) (e1 e2 : List (Path × Bool)) (log1 log2 : List LogEntry) (kf1 kf2 : List Path)
+    (h1 : execute s doc opName inputs w1 fuel = .result (some d1) e1 log1 kf1)
+    (h2 : execute s doc opName inputs w2 fuel = .result (some d2) e2 log2 kf2)
+    (p : Path) (hp : ∀ e, e ∈ log1 → Touches id0 f0 e → e.path = p)
+    (k : String) (hk : ¬ [PathSeg.key k] <+: p) :
+    ∀ v, (k, v) ∈ d1 ↔ (k, v) ∈ d2 := by
+  obtain ⟨c, root, sel, r1, st1, hc1, hr1, -, hlog1, -, hd1⟩ := execute_result h1
+  obtain ⟨c2, root2, sel2, r2, st2, hc2, hr2, -, -, -, hd2⟩ := execute_result h2
+  obtain ⟨hc2', hw⟩ := requestCtx_world hc1 w2
+  rw [hc2'] at hc2
+  simp only [Option.some.injEq, Prod.mk.injEq] at hc2
+  obtain ⟨rfl, rfl, rfl⟩ := hc2
+  subst hw
+  rw [rootGroups_world] at hr2
+  rcases hd1 with ⟨fs1, rfl, hfs1⟩ | ⟨-, hnone⟩
+  · rcases hd2 with ⟨fs2, rfl, hfs2⟩ | ⟨-, hnone⟩
+    · cases hfs1; cases hfs2
+      have hnd : (rootGroups c root sel).keys.Nodup := collect_keys_nodup c root sel ([], []) List.nodup_nil
+      have hkeys1 := execGroups_ok_keys c fuel _ _ _ _ _ _ _ _ _ hr1
+      have hkeys2 := execGroups_ok_keys (c.withWorld w2) fuel _ _ _ _ _ _ _ _ _ hr2
+      -- is `k` a resolvable group at all?
+      by_cases hres : k ∈ ((rootGroups c root sel).filter (resolvable c root)).map (·.1)
+      · obtain ⟨g, hg, rfl⟩ := List.mem_map.mp hres
+        obtain ⟨hgm, hgr⟩ := List.mem_filter.mp hg
+        obtain ⟨k, nodes⟩ := g
+        simp only [resolvable] at hgr
+        cases hnode : nodes.head? with
+        | none => simp [hnode] at hgr
+        | some node =>
+          cases hfd : fieldDef? c.schema root node.name with
+          | none => simp [hnode, hfd] at hgr
+          | some fd =>
+            refine execGroups_two_worlds ha fuel false root .nil [] _ _ _ _ _ _ _ hnd hr1 hr2 k nodes node fd hgm hnode hfd ?_
+            intro e he ht
+            obtain ⟨-, hsub⟩ := execGroups_field_log_subset c fuel _ _ _ _ _ _ _ _ _ hr1 k nodes node fd hgm hnode hfd
+            have hmem : e ∈ log1 := by rw [hlog1, List.mem_reverse]; exact hsub e he
+            have hpath := hp e hmem ht
+            rcases hrun : execField c fuel false root .nil ([] ++ [.key k]) fd nodes St.empty with ⟨rr, st'⟩
+            rw [hrun] at he
+            obtain ⟨new, hl, hpre, -⟩ := (logP c fuel).field _ _ _ _ _ _ _ _ _ hrun
+            have : e ∈ new := by simpa [hl, St.empty] using he
+            apply hk
+            rw [← hpath]
+            simpa using hpre e this
+      · intro v
+        constructor
+        · intro hv
+          exfalso; apply hres
+          have : k ∈ d1.map (·.1) := List.mem_map.mpr ⟨_, hv, rfl⟩
+          simpa [hkeys1] using this
+        · intro hv
+          exfalso; apply hres
+          have : k ∈ d2.map (·.1) := List.mem_map.mpr ⟨_, hv, rfl⟩
+          rw [hkeys2] at this
+          simpa [resolvable] using this
+    · cases hnone
+  · cases hnone
+
 /-! ## Non-vacuity: a concrete request (GqlProofs/ExecExample.lean) -/
 
 open Ex in
@@ -299,5 +404,47 @@ open Ex in
 /-- `errors_address_nulls` on the example: the error at `w.x` addresses the null at `w` -/
 example : ((obsData (execute schema doc "Q" varsF world 50)).map
     (fun d => (JVal.lookup d "w").map JVal.isNull)) = some (some true) := by decide +kernel
+
+/-- the example world with the outcome of the ONE resolver `(object 1, field x)` changed from a failure to a value -/
+def Ex.world2 : World :=
+  { Ex.world with objects := [(1, { typeName := "O", fields := [("x", .value (.str "ok")), ("y", .value (.int 2))] })] }
+
+/-- the hypothesis of the two-world theorems is satisfiable: the two example worlds agree except on `(1, x)` -/
+example : AgreeExcept Ex.world Ex.world2 1 "x" := by
+  refine ⟨fun t v => ?_, fun t v => ?_, fun src f h => ?_⟩
+  · cases v <;> try rfl
+    rename_i id
+    simp only [World.isTypeOfAns, World.obj?, Ex.world, Ex.world2, List.find?_nil]
+    by_cases hid : id = 1
+    · subst hid; rfl
+    · have : ((1 : Nat) == id) = false := by simpa using fun h => hid h.symm
+      simp [List.find?, this]
+  · cases v <;> try rfl
+    rename_i id
+    simp only [World.resolveTypeAns, World.obj?, Ex.world, Ex.world2, List.find?_nil]
+    by_cases hid : id = 1
+    · subst hid; rfl
+    · have : ((1 : Nat) == id) = false := by simpa using fun h => hid h.symm
+      simp [List.find?, this]
+  · cases src <;> try rfl
+    rename_i id
+    simp only [World.outcome, World.obj?, Ex.world, Ex.world2]
+    by_cases hid : id = 1
+    · subst hid
+      have hf : f ≠ "x" := fun hf => h ⟨rfl, hf⟩
+      have : ("x" == f) = false := by simpa using fun h => hf h.symm
+      simp [List.find?, this]
+    · have : ((1 : Nat) == id) = false := by simpa using fun h => hid h.symm
+      simp [List.find?, this]
+
+open Ex in
+/-- …the resolver is invoked only at `w.x` in the first world, the nearest nullable ancestor of `w.x` is `w`: the two
+responses differ under `w` (null vs an object) and agree under every other top-level key -/
+example : (let r1 := obsData (execute schema doc "Q" varsF world 50)
+           let r2 := obsData (execute schema doc "Q" varsF world2 50)
+           (r1.map (fun d => (d.filter (fun kv => kv.1 != "w")).map (fun kv => (kv.1, fmtV kv.2))) ==
+              r2.map (fun d => (d.filter (fun kv => kv.1 != "w")).map (fun kv => (kv.1, fmtV kv.2))),
+            r1.map (fun d => (JVal.lookup d "w").map fmtV), r2.map (fun d => (JVal.lookup d "w").map fmtV)))
+    = (true, some (some "<nil>"), some (some "map[x:ok]")) := by decide +kernel
 
 end GqlModel.Exec
